@@ -25,3 +25,14 @@ func VerifDecodeColor(form int, b []byte) (c ivg.Color, n int) {
 	}
 	return buffer(b).decodeColor3Indirect()
 }
+
+// VerifErrors lists the package's error values in a fixed order, so that the harness can identify an
+// error by value rather than by its message text.
+func VerifErrors() []error {
+	return []error{
+		errInconsistentMetadataChunkLength, errInvalidColor, errInvalidMagicIdentifier,
+		errInvalidMetadataChunkLength, errInvalidMetadataIdentifier, errInvalidNumber,
+		errInvalidNumberOfMetadataChunks, errInvalidSuggestedPalette, errInvalidViewBox,
+		errUnsupportedDrawingOpcode, errUnsupportedMetadataIdentifier, errUnsupportedStylingOpcode,
+	}
+}
